@@ -136,9 +136,30 @@ def audit(modules, scratch):
 # Go side
 
 
+OVERLAY = {"path": None}
+
+
+def write_overlay(scratch, files):
+    """Extra generated Go files of the harness package (name -> content), added through `go build -overlay` so that the
+    harness directory itself is never written to (concurrent checks with other seeds build other files)."""
+    rep = {}
+    for name, content in files.items():
+        p = os.path.join(scratch, name)
+        with open(p, "w") as f:
+            f.write(content)
+        rep[os.path.join(HARNESS, name)] = p
+    path = os.path.join(scratch, "overlay.json")
+    with open(path, "w") as f:
+        json.dump({"Replace": rep}, f)
+    OVERLAY["path"] = path
+    return path
+
+
 def build_harness(scratch, race=False, cover=False):
     exe = os.path.join(scratch, "vh" + ("-race" if race else ""))
     cmd = ["go", "build", "-tags", "verif", "-o", exe]
+    if OVERLAY["path"]:
+        cmd += ["-overlay", OVERLAY["path"]]
     env = dict(GOENV)
     if race:
         cmd.insert(2, "-race")
@@ -178,7 +199,7 @@ def eval_ops(ops, exe, key, shards=1, env=None, shard_timeout=900):
         except subprocess.TimeoutExpired as te:
             rc, out, err = -9, (te.stdout or b"").decode("utf-8", "replace") if isinstance(te.stdout, bytes) else (te.stdout or ""), ""
         got = {}
-        for ln in out.splitlines():
+        for ln in out.split("\n"):
             try:
                 j = json.loads(ln)
             except Exception:
@@ -194,7 +215,7 @@ def eval_ops(ops, exe, key, shards=1, env=None, shard_timeout=900):
                 try:
                     rc1, out1, err1 = _run_lines([exe], [ln], env=env, timeout=30)
                     j = None
-                    for l2 in out1.splitlines():
+                    for l2 in out1.split("\n"):
                         try:
                             jj = json.loads(l2)
                             if jj.get("id") == oid:
@@ -287,6 +308,11 @@ def shrink(op, still_fails, budget=40, seconds=25):
 
 def run(pid, tier="quick", seed=0, replay=None, n_override=None):
     t0 = time.time()
+    if replay:
+        try:
+            seed = int(json.load(open(replay)).get("seed", seed))    # generated harness files depend on the seed
+        except Exception:
+            pass
     mod = importlib.import_module("vlib.props." + pid.lower())
     scratch = tempfile.mkdtemp(prefix="jsv-%s-" % pid)
     violations = []     # (kind, text, replay_path)
@@ -302,6 +328,8 @@ def write_replay(pid, seed, k, payload):
     d = os.path.join(VERIF, "replays")
     os.makedirs(d, exist_ok=True)
     p = os.path.join(d, "%s-seed%d-%d.json" % (pid, seed, k))
+    payload = dict(payload)
+    payload.setdefault("seed", seed)
     with open(p, "w") as f:
         f.write(wire.dumps(payload))
         f.write("\n")
@@ -320,7 +348,8 @@ def _revive_args(args):
 
 
 def _strip_meta(o):
-    return {"id": o["id"], "op": o["op"], "args": o["args"]}
+    """The operation as stored in a replay file (the generator's expectations travel with it so that the judge can be re-run)."""
+    return {"id": o["id"], "op": o["op"], "args": o["args"], "meta": o.get("meta") or {}}
 
 
 def _run(pid, mod, tier, seed, replay, n_override, scratch, t0, violations, known_lines, notes):
@@ -374,6 +403,9 @@ def _run(pid, mod, tier, seed, replay, n_override, scratch, t0, violations, know
             drv = None
 
     # 3. harness
+    OVERLAY["path"] = None
+    if hasattr(mod, "HARNESS_FILES"):
+        write_overlay(scratch, mod.HARNESS_FILES(seed, tier))
     vh, htxt = build_harness(scratch)
     if vh is None:
         print("ERROR: the harness does not build against /repo's working tree:\n" + htxt[-3000:])
@@ -393,7 +425,10 @@ def _run(pid, mod, tier, seed, replay, n_override, scratch, t0, violations, know
                 o.setdefault("meta", {})["src"] = "corpus:" + fn
                 ops.append(o)
     if replay:
-        ops = [json.load(open(replay))["op"]]
+        o = json.load(open(replay))["op"]
+        o["args"] = _revive_args(o["args"])
+        o.setdefault("meta", {})
+        ops = [o]
     else:
         nops = n_override or (mod.N_QUICK if tier == "quick" else mod.N_THOROUGH)
         ops += mod.gen(rng, tier, nops)
@@ -451,7 +486,7 @@ def _run(pid, mod, tier, seed, replay, n_override, scratch, t0, violations, know
                     return i
             return None
         try:
-            small = shrink(dict(o), still_fails) if getattr(mod, "SHRINK", True) and status0 == "violation" else o
+            small = shrink(dict(o), still_fails) if getattr(mod, "SHRINK", True) and status0 == "violation" and not replay else o
         except Exception as e:  # shrinking is best effort
             notes.append("shrink failed: %r" % (e,))
             small = o
